@@ -38,7 +38,7 @@ def main(tier, replay, t0):
         for x in c.cfgs:
             if c.gen[x["id"]].get("result") != "ok":
                 continue
-            base = {"wgsl": c.wgsl, "options": x["opt"]}
+            base = {"case_id": c.id, "wgsl": c.wgsl, "options": x["opt"]}
             if not camp.module_ok(c.id, x["id"]):
                 lost += 1
                 diags = camp.rustc.get("%s/%s/m.rs" % (c.id, x["id"]), {}).get("diags", [])
@@ -197,7 +197,7 @@ def main(tier, replay, t0):
                 viol.append(Violation("check-stage-input", "vertex",
                                       "wgpu-core vertex input validation fails for %s: %s" % (
                                           e.name, cs["err"]),
-                                      {"wgsl": c.wgsl, "options": x["opt"], "buffers": ev["buffers"],
+                                      {"case_id": c.id, "wgsl": c.wgsl, "options": x["opt"], "buffers": ev["buffers"],
                                        "check_stage": cs}))
     dev = device_replay(dev_jobs)
     inconclusive, ndecl = probes.decline_guard(camp, camp.cases.values())
